@@ -132,11 +132,33 @@ def run(prog):
     ok_push = any(dim(fn, cs.args[1]) == "Label" and (loopvar is None or any(
         x[0] == "index" and strip(x[2]) == loopvar for x in mir.subterms(cs.args[1]))) for cs in pushes if len(cs.args) == 2)
     if not ok_store:
-        errs.append("var_to_pos[label_i] = i not found")
+        swapped = [s_ for s_ in st if dim(fn, (s_[1][2] if s_[1][0] == "index" else s_[1][2][1])) != "Label" and dim(fn, s_[2]) == "Label"]
+        errs.append("var_to_pos is written at a position with a label (var_to_pos[i] = order[i]): it becomes a copy of "
+                    "pos_to_var instead of its inverse" if swapped else "var_to_pos[label_i] = i not found")
     if not ok_push:
         errs.append("pos_to_var.push(label_i) not found")
     out.append(inst("VO", "%s:inverse-by-construction" % fn.npath, VIOLATION if errs else OK, fn, None,
                     "; ".join(errs) if errs else "var_to_pos[order[i]] = i and pos_to_var[i] = order[i]"))
+    # new_last: the fresh variable is numbered by the *count* of variables (label = level = n)
+    fn = prog.find1(name="new_last", self_adt=VO, unit="rsdd-lib")
+    te = fn.terms
+    errs = []
+    pushes = [cs for cs in te.calls if cs.callee.name == "push" and len(cs.args) == 2]
+    tabs = sorted(show(strip(cs.args[0]))[-10:] for cs in pushes)
+    if tabs != ["pos_to_var", "var_to_pos"]:
+        errs.append("expected one push to each table, found %s" % tabs)
+
+    def is_count(t):
+        t = strip(t)
+        return mir.is_call(t, "len") and show(strip(t[2][0])).endswith(("pos_to_var", "var_to_pos"))
+    for cs in pushes:
+        if not is_count(cs.args[1]):
+            errs.append("%s is extended with %s, not with the number of variables" % (show(strip(cs.args[0]))[-10:], show(cs.args[1])[:50]))
+    r = strip(te.ret)
+    if not (mir.is_call(r, "new") and is_count(r[2][0])):
+        errs.append("the fresh label is %s, not the number of variables" % show(r)[:60])
+    out.append(inst("VO", "%s:fresh-is-count" % fn.npath, VIOLATION if errs else OK, fn, None,
+                    "; ".join(errs) if errs else "fresh variable: label = level = number of variables so far"))
     if n < 8:
         raise CheckerError("VO: only %d table accesses recognised" % n)
     return out
